@@ -1,5 +1,7 @@
 /* C06: replays Ownership.tla programs on the real container classes.
- * usage: own_replay <seq|vec|map> <array|linked_list|dlinked_list> <values e.g. 1,1,2> <scriptfile> [first]
+ * usage: own_replay <seq|vec|map> <array|linked_list|dlinked_list> <values e.g. 1,1,2>[:url|:pair|:list] <scriptfile> [first]
+ *   map kind, :url/:pair/:list - the VALUE handed to set() is a composite object made from the value handle's text (a url
+ *   whose host is the text, a pair of two strs, a list holding one str) and deleted by the program right after the call.
  * Handle h carries the text of values[h]; several handles may carry EQUAL texts.  The library addresses elements by value;
  * ownership is by identity.  When remove() hands back an object equal to the probe but not the one the script named, the
  * two equal-valued handles swap their labels (sound: they are indistinguishable by value), so the ledger stays by identity.
@@ -30,7 +32,36 @@ static int is_map(void) { return kind[0] == 'm'; }
 static spif_obj_t new_cont(void) { return is_seq() ? NEWC(SPIF_LIST_NEW) : is_vec() ? NEWC(SPIF_VECTOR_NEW) : NEWC(SPIF_MAP_NEW); }
 static long count(spif_obj_t c) { return is_seq() ? SPIF_LIST_COUNT(c) : is_vec() ? SPIF_VECTOR_COUNT(c) : SPIF_MAP_COUNT(c); }
 static spif_iterator_t iterator(spif_obj_t c) { return is_seq() ? SPIF_LIST_ITERATOR(c) : is_vec() ? SPIF_VECTOR_ITERATOR(c) : SPIF_MAP_ITERATOR(c); }
-static int hid(spif_obj_t o) { return SPIF_OBJ_ISNULL(o) ? 0 : atoi((const char *) SPIF_STR_STR(SPIF_STR(o))); }
+static const char *vkind = "";                 /* "", "url", "pair", "list": class of the values stored in a map */
+static int is_listobj(spif_obj_t o) {
+    return !SPIF_OBJ_ISNULL(o) && (SPIF_OBJ_CLASS(o) == SPIF_CLASS(SPIF_LISTCLASS_VAR(array)) || SPIF_OBJ_CLASS(o) == SPIF_CLASS(SPIF_LISTCLASS_VAR(linked_list))
+                                   || SPIF_OBJ_CLASS(o) == SPIF_CLASS(SPIF_LISTCLASS_VAR(dlinked_list)));
+}
+/* the text an object stands for: a str/url's own text, a pair's key, a list's first element */
+static const char *text_of(spif_obj_t o) {
+    if (SPIF_OBJ_ISNULL(o)) return NULL;
+    if (SPIF_OBJ_IS_OBJPAIR(o)) return text_of(SPIF_OBJPAIR(o)->key);
+    if (is_listobj(o)) return text_of(SPIF_LIST_GET(SPIF_LIST(o), 0));
+    return (const char *) SPIF_STR_STR(SPIF_STR(o));
+}
+static int hid(spif_obj_t o) { const char *t = text_of(o); return t ? atoi(t) : 0; }
+static spif_obj_t mk_value(const char *b) {
+    if (!strcmp(vkind, "url")) return SPIF_OBJ(spif_url_new_from_ptr((spif_charptr_t) b));
+    if (!strcmp(vkind, "pair")) {
+        spif_str_t k = spif_str_new_from_ptr((spif_charptr_t) b), v = spif_str_new_from_ptr((spif_charptr_t) b);
+        spif_objpair_t p = spif_objpair_new_from_both(SPIF_OBJ(k), SPIF_OBJ(v));
+        spif_str_del(k); spif_str_del(v);
+        return SPIF_OBJ(p);
+    }
+    { spif_list_t l = SPIF_LIST_NEW(array); SPIF_LIST_APPEND(l, SPIF_OBJ(spif_str_new_from_ptr((spif_charptr_t) b))); return SPIF_OBJ(l); }
+}
+/* a component of a stored value (the object itself when it has none) */
+static spif_obj_t part_of(spif_obj_t v) {
+    if (SPIF_OBJ_IS_URL(v)) { spif_str_t h = spif_url_get_host((spif_url_t) v); return SPIF_STR_ISNULL(h) ? v : SPIF_OBJ(h); }
+    if (SPIF_OBJ_IS_OBJPAIR(v)) return SPIF_OBJ_ISNULL(SPIF_OBJPAIR(v)->value) ? v : SPIF_OBJPAIR(v)->value;
+    if (is_listobj(v) && SPIF_LIST_COUNT(SPIF_LIST(v)) > 0) return SPIF_LIST_GET(SPIF_LIST(v), 0);
+    return v;
+}
 static int ident(spif_obj_t o) { int h; for (h = 1; h <= NH; h++) if (created[h] && !deleted[h] && Hd[h] == o) return h; return 0; }
 static void mkname(int h, char *b) { sprintf(b, "%d", VAL[h]); }
 /* the object `r` came back from the container where the script named handle h: make h name it */
@@ -194,7 +225,17 @@ static const char *vh_step(const vh_step_t *st, vh_sb *ret, vh_sb *state) {
         narrays--; FREE(arrays[narrays]); sb_bool(ret, 1);
     } else if (OP("set")) {
         int v = atoi(st->args[1]);
-        sb_bool(ret, SPIF_MAP_SET(C, Hd[h], Hd[v]));
+        if (!*vkind) sb_bool(ret, SPIF_MAP_SET(C, Hd[h], Hd[v]));
+        else {
+            /* a composite value: the map holds its own copy, the program deletes its object right away */
+            spif_obj_t val; mkname(v, b); val = mk_value(b);
+            sb_bool(ret, SPIF_MAP_SET(C, Hd[h], val));
+            SPIF_OBJ_DEL(val);
+        }
+    } else if (OP("set_same") || OP("set_part")) {
+        spif_obj_t cur = SPIF_MAP_GET(C, Hd[h]);
+        if (SPIF_OBJ_ISNULL(cur)) return "get_of_a_present_key=NULL";
+        sb_bool(ret, SPIF_MAP_SET(C, Hd[h], OP("set_part") ? part_of(cur) : cur));
     } else if (OP("map_get")) {
         spif_obj_t v = SPIF_MAP_GET(C, Hd[h]);
         if (!SPIF_OBJ_ISNULL(v) && ident(v)) return "map_get_returns_the_callers_own_object";
@@ -210,10 +251,21 @@ static const char *vh_step(const vh_step_t *st, vh_sb *ret, vh_sb *state) {
     } else if (OP("del_pair")) {
         npairs--; sb_bool(ret, SPIF_OBJ_DEL(pairs[npairs]));
     } else if (OP("listing")) {
-        const char *w = st->args[0];
-        spif_list_t l = !strcmp(w, "keys") ? SPIF_MAP_GET_KEYS(C, (spif_list_t) NULL)
-                      : !strcmp(w, "values") ? SPIF_MAP_GET_VALUES(C, (spif_list_t) NULL) : SPIF_MAP_GET_PAIRS(C, (spif_list_t) NULL);
-        if (SPIF_LIST_ISNULL(l)) return "listing=NULL";
+        const char *w = st->args[0], *d = st->nargs > 1 ? st->args[1] : "null";
+        spif_list_t dest = (spif_list_t) NULL, l;
+        if (strcmp(d, "null")) {
+            /* a destination list of the map's own implementation family, in one of the states an empty list can be in */
+            dest = SPIF_LIST(NEWC(SPIF_LIST_NEW));
+            mkname(1, b);
+            if (!strcmp(d, "dup_empty")) { spif_list_t e = dest; dest = SPIF_LIST(SPIF_LIST_DUP(e)); SPIF_LIST_DEL(e); }
+            else if (!strcmp(d, "emptied")) { spif_obj_t r; SPIF_LIST_APPEND(dest, SPIF_OBJ(spif_str_new_from_ptr((spif_charptr_t) b))); r = SPIF_LIST_REMOVE_AT(dest, 0); if (!SPIF_OBJ_ISNULL(r)) SPIF_OBJ_DEL(r); }
+            else if (!strcmp(d, "done")) { SPIF_LIST_APPEND(dest, SPIF_OBJ(spif_str_new_from_ptr((spif_charptr_t) b))); SPIF_LIST_DONE(dest); }
+            else if (!strcmp(d, "holding")) { SPIF_LIST_APPEND(dest, SPIF_OBJ(spif_str_new_from_ptr((spif_charptr_t) b))); }
+            if (SPIF_LIST_ISNULL(dest)) return "destination_list=NULL";
+        }
+        l = !strcmp(w, "keys") ? SPIF_MAP_GET_KEYS(C, dest) : !strcmp(w, "values") ? SPIF_MAP_GET_VALUES(C, dest) : SPIF_MAP_GET_PAIRS(C, dest);
+        if (SPIF_LIST_ISNULL(l)) { if (dest) SPIF_LIST_DEL(dest); return "listing=NULL"; }
+        if (dest && l != dest) { SPIF_LIST_DEL(dest); return "listing_did_not_go_into_the_destination_it_was_given"; }
         lists[nlists++] = SPIF_OBJ(l);
         sb_int(ret, (long) SPIF_LIST_COUNT(l));
     } else if (OP("del_listing")) {
@@ -243,6 +295,7 @@ static const char *vh_step(const vh_step_t *st, vh_sb *ret, vh_sb *state) {
 int main(int argc, char **argv) {
     if (argc < 5) { fprintf(stderr, "usage: %s <seq|vec|map> <class> <values> <scripts> [first]\n", argv[0]); return 2; }
     kind = argv[1]; cls = argv[2];
+    { char *c = strchr(argv[3], ':'); if (c) { *c = 0; vkind = c + 1; } }
     { char *t = strdup(argv[3]), *q; NH = 0; for (q = strtok(t, ","); q && NH < MAXH; q = strtok(NULL, ",")) VAL[++NH] = atoi(q); }
     libast_set_program_name("own_replay");
     return vh_main(argc, argv, 4);
